@@ -46,8 +46,9 @@ SPECS = {
             {"name": "rga", "n": {"quick": 600, "thorough": 8000}, "seed_off": 3},
             {"name": "erht", "n": {"quick": 400, "thorough": 5000}, "seed_off": 3},
             {"name": "c07", "n": {"quick": 300, "thorough": 6000}},
+            {"name": "c07tree", "n": {"quick": 250, "thorough": 4000}, "seed_off": 5},
         ],
-        "explanation": "Counter arithmetic proved (modular sum, wrap examples). Array index arithmetic: the RGAList model's linear scans are compared with the real treelist-backed Len/Get on every generated state. Text/array/object/counter editing calls on one Document (after random remote changes and GC) are compared with a plain reference (Go string/slice/map) by the c07 engine.",
+        "explanation": "Counter arithmetic proved (modular sum, wrap examples). Array index arithmetic: the RGAList model's linear scans are compared with the real treelist-backed Len/Get on every generated state. Text/array/object/counter editing calls on one Document (after random remote changes and GC) are compared with a plain reference (Go string/slice/map) by the c07 engine. The c07tree engine edits a tree with the full alphabet (text, paragraphs, inline elements, deletions, merges, splits, styles; remote edits and GC in between) and after every step compares Len and every index<->path conversion with a tree built from nothing but the visible XML (deleted content must not influence them; positions inside mixed text/element content, whose paths count text chunks, are skipped), and rebuilds arrays by DeepCopy and by the snapshot codec after moves, comparing Len and every Get(i) with the live array.",
         "assumptions": ["text and tree index arithmetic have no Coq model: reference-model differential only"],
     },
     "C08": {
